@@ -36,3 +36,35 @@ func (resp *HTTPResponse) VerifShouldCompressed() bool {
 func (resp *HTTPResponse) VerifGetBodyByAcceptEncoding(acceptEncoding string) (string, []byte, error) {
 	return resp.getBodyByAcceptEncoding(acceptEncoding)
 }
+
+// VerifEntry is a copy of the fields of an httpCache entry.
+type VerifEntry struct {
+	Status    int
+	Response  *HTTPResponse
+	CreatedAt int64
+	ExpiredAt int64
+	Waiting   int
+}
+
+// VerifSnapshot copies the entry's fields (under the entry lock).
+func (hc *httpCache) VerifSnapshot() VerifEntry {
+	hc.mu.RLock()
+	defer hc.mu.RUnlock()
+	return VerifEntry{
+		Status:    int(hc.status),
+		Response:  hc.response,
+		CreatedAt: hc.createdAt,
+		ExpiredAt: hc.expiredAt,
+		Waiting:   len(hc.chanList),
+	}
+}
+
+// VerifNewEntry builds an entry with the given fields (test input producer).
+func VerifNewEntry(status int, resp *HTTPResponse, createdAt, expiredAt int64) *httpCache {
+	hc := NewHTTPCache()
+	hc.status = Status(status)
+	hc.response = resp
+	hc.createdAt = createdAt
+	hc.expiredAt = expiredAt
+	return hc
+}
